@@ -44,6 +44,8 @@ impl BackendInternal {
         self.sock
             .send_header(&hdr, fds)
             .map_err(io_err_convert_fn("send_header"))?;
+        #[cfg(feature = "verif-hooks")]
+        vhost_user::verif::hold("gpu.after_send");
         Ok(hdr)
     }
 
@@ -60,6 +62,8 @@ impl BackendInternal {
         self.sock
             .send_message(&hdr, body, fds)
             .map_err(io_err_convert_fn("send_message"))?;
+        #[cfg(feature = "verif-hooks")]
+        vhost_user::verif::hold("gpu.after_send");
         Ok(hdr)
     }
 
@@ -77,6 +81,8 @@ impl BackendInternal {
         self.sock
             .send_message_with_payload(&hdr, body, data, fds)
             .map_err(io_err_convert_fn("send_message_with_payload"))?;
+        #[cfg(feature = "verif-hooks")]
+        vhost_user::verif::hold("gpu.after_send");
         Ok(hdr)
     }
 
